@@ -11,6 +11,7 @@ import (
 	"encoding/base64"
 	"encoding/json"
 	"fmt"
+	"io"
 	"net"
 	"net/http"
 	"os"
@@ -63,6 +64,10 @@ type swarm struct {
 	fAddFail   bool
 	lateJoin   bool
 	extraStep  int
+	nested     bool // b.d2 imports c.d2
+	detach     bool // saves of index.d2 may drop / restore the import of b.d2
+	navigate   bool // multi-board input and a browser tab that navigates between boards (page GETs)
+	fFsErr     bool // the fsnotify Errors channel delivers errors
 }
 
 type frame struct {
@@ -70,8 +75,23 @@ type frame struct {
 	At    time.Duration
 	Main  int // -1: not present
 	Imp   int
+	Imp2  int
+	Board int
 	Err   string
 	Bytes int
+	Hash  uint64
+}
+
+// vers is what a rendered SVG tells about the sources it was compiled from: the versions of
+// index.d2 (v), b.d2 (w), c.d2 (x) and which board was rendered; -1 = not present.
+type vers struct{ Main, Imp, Imp2, Board int }
+
+func (v vers) String() string {
+	return fmt.Sprintf("v%04d/w%04d/x%04d/board%d", v.Main, v.Imp, v.Imp2, v.Board)
+}
+
+func resHash(svg, errs string) uint64 {
+	return harness.HashStrings([]string{svg, errs})
 }
 
 type client struct {
@@ -107,6 +127,11 @@ type world struct {
 	settling  atomic.Bool
 
 	mainVer, impVer  int
+	imp2Ver          int
+	attached         bool     // the content of index.d2 on disk (after the save in progress) imports b.d2
+	navBoard         int      // board the browser tab navigated to last (0 = root)
+	navsDone         atomic.Bool
+	stored           []uint64 // hash of every result the compile loop stored, in order
 	editsDone        atomic.Bool
 	closeBegun       atomic.Bool
 	hsWeight         int
@@ -145,17 +170,26 @@ func wt(on bool, n int) int {
 
 var (
 	classRe = regexp.MustCompile(`class="([A-Za-z0-9+/]+=*)"`)
-	verRe   = regexp.MustCompile(`^([vw])(\d{4})$`)
+	verRe   = regexp.MustCompile(`^([vwx])(\d{4})$`)
+	boardRe = regexp.MustCompile(`^bb(\d{2})$`)
 )
 
 // versions extracts the (main, import) content versions a rendered SVG carries. The
 // objects have empty labels (no text means no font subsetting, which would dominate the
 // cost of a compile); d2 puts the base64 of an object's id into its class attribute.
-func versions(svg string) (int, int) {
-	m, i := -1, -1
+func versions(svg string) vers {
+	v := vers{-1, -1, -1, -1}
 	for _, c := range classRe.FindAllStringSubmatch(svg, -1) {
 		id, err := base64.StdEncoding.DecodeString(c[1])
 		if err != nil {
+			continue
+		}
+		if g := boardRe.FindStringSubmatch(string(id)); g != nil {
+			n := 0
+			fmt.Sscanf(g[1], "%d", &n)
+			if n > v.Board {
+				v.Board = n
+			}
 			continue
 		}
 		g := verRe.FindStringSubmatch(string(id))
@@ -164,14 +198,16 @@ func versions(svg string) (int, int) {
 		}
 		n := 0
 		fmt.Sscanf(g[2], "%d", &n)
-		if g[1] == "v" && n > m {
-			m = n
-		}
-		if g[1] == "w" && n > i {
-			i = n
+		switch {
+		case g[1] == "v" && n > v.Main:
+			v.Main = n
+		case g[1] == "w" && n > v.Imp:
+			v.Imp = n
+		case g[1] == "x" && n > v.Imp2:
+			v.Imp2 = n
 		}
 	}
-	return m, i
+	return v
 }
 
 func resFields(arg any) (svg, errs string) {
@@ -197,7 +233,12 @@ type verEv struct {
 	Main, Imp int
 	Err       bool
 	Who       string
+	Imp2      int
+	Board     int
+	Hash      uint64
 }
+
+func (e verEv) vers() vers { return vers{e.Main, e.Imp, e.Imp2, e.Board} }
 
 func (w *world) yield(point string, arg any) {
 	key := point
@@ -228,8 +269,8 @@ func (w *world) trace(ev string, arg any) {
 		w.inCompile.Store(false)
 		w.publishing.Store(true)
 		if b, ok := arg.([]byte); ok {
-			m, i := versions(string(b))
-			out = verEv{Main: m, Imp: i}
+			v := versions(string(b))
+			out = verEv{Main: v.Main, Imp: v.Imp, Imp2: v.Imp2, Board: v.Board}
 		}
 	case "bcast.notify":
 		w.publishing.Store(false)
@@ -243,8 +284,13 @@ func (w *world) trace(ev string, arg any) {
 		out = arg
 	case "bcast.stored", "wl.write":
 		svg, errs := resFields(arg)
-		m, i := versions(svg)
-		e := verEv{Main: m, Imp: i, Err: errs != ""}
+		v := versions(svg)
+		e := verEv{Main: v.Main, Imp: v.Imp, Imp2: v.Imp2, Board: v.Board, Err: errs != "", Hash: resHash(svg, errs)}
+		if ev == "bcast.stored" {
+			w.mu.Lock()
+			w.stored = append(w.stored, e.Hash)
+			w.mu.Unlock()
+		}
 		if ev == "wl.write" {
 			w.mu.Lock()
 			e.Who = w.gidName[runtime.VerifGID()]
@@ -271,15 +317,55 @@ func (w *world) fsHandler(op simfs.Op) simfs.Decision {
 
 // ---- editor
 
-func content(main bool, ver int, imports bool) string {
-	if !main {
-		return fmt.Sprintf("w%04d: \"\"\n", ver)
+// Content of the three sources. Every object has a fixed-width id carrying the version of
+// the file it was written in, so a torn prefix never looks like an older version.
+// index.d2 (v) optionally imports b.d2 (w), which optionally imports c.d2 (x); with
+// navigation index.d2 has two layers, each showing the same versions plus a board marker.
+func (w *world) mainContent(ver int, attached bool) string {
+	imp := ""
+	if attached {
+		imp = "...@b\n"
 	}
-	s := fmt.Sprintf("v%04d: \"\"\n", ver)
-	if imports {
-		s += "...@b\n"
+	s := fmt.Sprintf("v%04d: \"\"\n", ver) + imp
+	if w.cfg.navigate {
+		s += "bb00: \"\"\nlayers: {\n"
+		for b := 1; b <= 2; b++ {
+			s += fmt.Sprintf("  l%d: {\n    v%04d: \"\"\n    bb%02d: \"\"\n", b, ver, b)
+			if attached {
+				s += "    " + imp
+			}
+			s += "  }\n"
+		}
+		s += "}\n"
 	}
 	return s
+}
+
+func (w *world) impContent(ver int) string {
+	s := fmt.Sprintf("w%04d: \"\"\n", ver)
+	if w.cfg.nested {
+		s += "...@c\n"
+	}
+	return s
+}
+
+func imp2Content(ver int) string { return fmt.Sprintf("x%04d: \"\"\n", ver) }
+
+// want is what a compile of the sources as they are on disk now must show.
+func (w *world) want() vers {
+	v := vers{w.mainVer, -1, -1, -1}
+	if w.cfg.imports && w.attached {
+		v.Imp = w.impVer
+		if w.cfg.nested {
+			v.Imp2 = w.imp2Ver
+		}
+	}
+	if w.cfg.navigate {
+		w.mu.Lock()
+		v.Board = w.navBoard
+		w.mu.Unlock()
+	}
+	return v
 }
 
 func (w *world) mtime(ver, step int) time.Time {
@@ -295,23 +381,40 @@ func (w *world) harnessIO(f func()) {
 func (w *world) editor() {
 	defer w.editsDone.Store(true)
 	for e := 0; e < w.cfg.edits; e++ {
-		main := true
-		if w.cfg.imports && w.tp.Chance(1, 3, "edit.import") {
-			main = false
-		}
+		// (Every draw of an actor comes after its park point: only the released goroutine
+		// may touch the tape.)
 		style := w.sim.Park("editor:edit", []sched.Option{{"truncate-write", 4}, {"rename-over", 3}, {"rename-away-create", 2}})
+		which := 0 // 0 index.d2, 1 b.d2, 2 c.d2
+		if w.cfg.imports && w.tp.Chance(1, 3, "edit.import") {
+			which = 1
+			if w.cfg.nested && w.tp.Chance(1, 2, "edit.import2") {
+				which = 2
+			}
+		}
 		var ver int
 		var path string
-		if main {
+		var data []byte
+		switch which {
+		case 0:
+			if w.cfg.detach && w.tp.Chance(1, 3, "edit.detach") {
+				w.attached = !w.attached
+				w.sim.Logf("editor: index.d2 imports b.d2: %v", w.attached)
+			}
 			w.mainVer++
 			ver = w.mainVer
 			path = filepath.Join(w.dir, "index.d2")
-		} else {
+			data = []byte(w.mainContent(ver, w.attached))
+		case 1:
 			w.impVer++
 			ver = w.impVer
 			path = filepath.Join(w.dir, "b.d2")
+			data = []byte(w.impContent(ver))
+		case 2:
+			w.imp2Ver++
+			ver = w.imp2Ver
+			path = filepath.Join(w.dir, "c.d2")
+			data = []byte(imp2Content(ver))
 		}
-		data := []byte(content(main, ver, w.cfg.imports))
 		w.saveInProgress.Store(1)
 		w.sim.Logf("editor: save %s version %d (%s)", filepath.Base(path), ver, []string{"truncate-write", "rename-over", "rename-away-create"}[style])
 		switch style {
@@ -383,17 +486,19 @@ func (w *world) decode(c *client, data []byte) {
 		SVG string `json:"svg"`
 		Err string `json:"err"`
 	}
-	f := frame{Main: -1, Imp: -1, Bytes: len(data), At: w.sim.Now()}
+	f := frame{Main: -1, Imp: -1, Imp2: -1, Board: -1, Bytes: len(data), At: w.sim.Now()}
 	if err := json.Unmarshal(data, &m); err != nil {
 		f.Err = "undecodable frame: " + err.Error()
 	} else {
-		f.Main, f.Imp = versions(m.SVG)
+		v := versions(m.SVG)
+		f.Main, f.Imp, f.Imp2, f.Board = v.Main, v.Imp, v.Imp2, v.Board
 		f.Err = m.Err
+		f.Hash = resHash(m.SVG, m.Err)
 	}
 	w.mu.Lock()
 	c.frames = append(c.frames, f)
 	w.mu.Unlock()
-	w.sim.Emit("client.frame", verEv{Main: f.Main, Imp: f.Imp, Err: f.Err != "", Who: c.name})
+	w.sim.Emit("client.frame", verEv{Main: f.Main, Imp: f.Imp, Imp2: f.Imp2, Board: f.Board, Err: f.Err != "", Who: c.name, Hash: f.Hash})
 }
 
 func (w *world) setState(c *client, s, err string) {
@@ -478,6 +583,7 @@ func (w *world) browser(c *client) {
 	}
 	gc := &gatedConn{Conn: conn, beforeWrite: gate("hs-send"), midWrite: gate("hs-mid"), beforeRead: gate("hs-await")}
 	gc.eachRead = func() { w.park(c, "hs-read:"+c.name, sched.Go) }
+	gc.afterRead = func() { w.park(c, "hs-got:"+c.name, sched.Go) }
 	hc := &http.Client{Transport: &http.Transport{
 		DialContext: func(context.Context, string, string) (net.Conn, error) {
 			if dialled {
@@ -541,12 +647,51 @@ func (w *world) browser(c *client) {
 	}
 }
 
+// navigator is a browser tab that follows links between boards: every navigation is a page
+// GET, which makes the server switch the board it renders and request a compile. The
+// simulator only lets a GET start while no compile is in progress: handleRoot takes the
+// mutex the compile loop holds across a compile, and a goroutine blocked on a mutex keeps a
+// synctest bubble from quiescing. The mutex serialises the two anyway, so only "GET waits
+// for the compile to end" is not explored; "compile starts right after the GET" is.
+func (w *world) navigator(n int) {
+	defer w.navsDone.Store(true)
+	for i := 0; i < n; i++ {
+		b := w.sim.Park("nav:get", []sched.Option{{"root", 2}, {"l1", 3}, {"l2", 3}})
+		path := []string{"/", "/layers/l1", "/layers/l2.svg"}[b]
+		conn, err := w.lis.Dial("nav")
+		if err != nil {
+			w.sim.Logf("nav: connection refused")
+			return
+		}
+		conn.SetDeadline(time.Now().Add(2 * time.Minute))
+		// Once the request is written in full the server has it: the handler runs (it
+		// switches the board before it does anything that can wait), whatever becomes of the
+		// response afterwards (the server's write timeout may expire while the simulator
+		// holds the handler at its scheduling point).
+		ok := false
+		if _, err := conn.Write([]byte("GET " + path + " HTTP/1.1\r\nHost: sim\r\nConnection: close\r\n\r\n")); err == nil {
+			w.mu.Lock()
+			w.navBoard = b
+			w.mu.Unlock()
+			w.probe("page_navigations")
+			if resp, err := http.ReadResponse(bufio.NewReader(conn), nil); err == nil {
+				io.Copy(io.Discard, resp.Body)
+				resp.Body.Close()
+				ok = resp.StatusCode == 200
+			}
+		}
+		conn.Close()
+		w.sim.Logf("nav: GET %s ok=%v", path, ok)
+	}
+}
+
 // gatedConn gives the simulator three points inside the browser's half of the upgrade
 // handshake: before the request is sent, in the middle of the request, and before the
 // server's response is read.
 type gatedConn struct {
 	net.Conn
 	beforeWrite, midWrite, beforeRead, eachRead func()
+	afterRead                                   func()
 	wOnce, rOnce                                sync.Once
 	established                                 atomic.Bool
 }
@@ -578,7 +723,14 @@ func (g *gatedConn) Read(p []byte) (int, error) {
 	} else if !g.established.Load() {
 		g.eachRead()
 	}
-	return g.Conn.Read(p)
+	n, err := g.Conn.Read(p)
+	if !g.established.Load() && g.afterRead != nil {
+		// What the browser does with what it read (accept the 101, or give up and close
+		// because something else arrived) is a decision of its own: the server goroutine
+		// that wrote it is by then blocked on the pipe or done, never in the middle.
+		g.afterRead()
+	}
+	return n, err
 }
 
 // ---- the run
@@ -668,9 +820,14 @@ func runInBubble(hcfg harness.Config, idx int, tp *tape.Tape, dir string, res *h
 		w.cfg.profile = "C44"
 	}
 	w.cfg.extraStep = tp.Draw(40, "cfg.extrasteps")
+	w.cfg.nested = w.cfg.imports && tp.Chance(1, 2, "cfg.nested")
+	w.cfg.detach = w.cfg.imports && tp.Chance(1, 3, "cfg.detach")
+	w.cfg.navigate = tp.Chance(1, 4, "cfg.navigate")
+	w.cfg.fFsErr = tp.Chance(1, 4, "cfg.fserr")
+	w.attached = w.cfg.imports
 	sim.TimeWeight = 1
 	for _, cl := range []string{"req", "compile.wait", "compile.start", "compile.bcast", "bcast.res", "bcast.clients", "ws.admit", "ws.accept", "ws.register",
-		"wl.getres", "wl.wait", "close", "close.cancel", "close.wait", "fs", "layout", "fsn", "kernel", "editor", "browser", "hs-send", "hs-mid", "hs-await", "hs-read"} {
+		"wl.getres", "wl.wait", "close", "close.cancel", "close.wait", "fs", "layout", "fsn", "kernel", "editor", "browser", "hs-send", "hs-mid", "hs-await", "hs-read", "hs-got", "nav"} {
 		sim.ClassWeight[cl] = 2 + tp.Draw(10, "cfg.w."+cl)
 	}
 	sim.ClassWeight["operator"] = 0
@@ -684,11 +841,15 @@ func runInBubble(hcfg harness.Config, idx int, tp *tape.Tape, dir string, res *h
 
 	// ---- world
 	w.harnessIO(func() {
-		os.WriteFile(filepath.Join(dir, "index.d2"), []byte(content(true, 0, w.cfg.imports)), 0644)
+		os.WriteFile(filepath.Join(dir, "index.d2"), []byte(w.mainContent(0, w.attached)), 0644)
 		os.Chtimes(filepath.Join(dir, "index.d2"), w.mtime(0, 3), w.mtime(0, 3))
 		if w.cfg.imports {
-			os.WriteFile(filepath.Join(dir, "b.d2"), []byte(content(false, 0, true)), 0644)
+			os.WriteFile(filepath.Join(dir, "b.d2"), []byte(w.impContent(0)), 0644)
 			os.Chtimes(filepath.Join(dir, "b.d2"), w.mtime(0, 3), w.mtime(0, 3))
+		}
+		if w.cfg.nested {
+			os.WriteFile(filepath.Join(dir, "c.d2"), []byte(imp2Content(0)), 0644)
+			os.Chtimes(filepath.Join(dir, "c.d2"), w.mtime(0, 3), w.mtime(0, 3))
 		}
 	})
 	w.kernel = simnotify.New(sim)
@@ -696,6 +857,7 @@ func runInBubble(hcfg harness.Config, idx int, tp *tape.Tape, dir string, res *h
 	w.kernel.DupWeight = wt(w.cfg.fDup, 1)
 	w.kernel.DropWriteWeight = wt(w.cfg.fDropW, 1)
 	w.kernel.AddFailWeight = wt(w.cfg.fAddFail, 1)
+	w.kernel.ErrWeight = wt(w.cfg.fFsErr, 1)
 	w.lis = simnet.NewListener()
 	w.sigs = make(chan os.Signal, 1)
 
@@ -747,6 +909,11 @@ func runInBubble(hcfg harness.Config, idx int, tp *tape.Tape, dir string, res *h
 		go w.browser(c)
 	}
 	go w.editor()
+	if w.cfg.navigate {
+		go w.navigator(1 + tp.Draw(5, "nav.count"))
+	} else {
+		w.navsDone.Store(true)
+	}
 	opDone := make(chan struct{})
 	go func() {
 		defer close(opDone)
@@ -794,7 +961,13 @@ func runInBubble(hcfg harness.Config, idx int, tp *tape.Tape, dir string, res *h
 			}
 			sim.ClassWeight["operator"] = wgt
 		}
-		if w.editsDone.Load() {
+		// a page GET may only start while no compile holds the board-path mutex
+		if w.inCompile.Load() {
+			sim.ClassWeight["nav"] = 0
+		} else {
+			sim.ClassWeight["nav"] = w.baseWeight["nav"]
+		}
+		if w.editsDone.Load() && w.navsDone.Load() {
 			extra++
 			if w.cfg.profile == "C44" && extra > w.cfg.extraStep {
 				break
@@ -802,11 +975,11 @@ func runInBubble(hcfg harness.Config, idx int, tp *tape.Tape, dir string, res *h
 		}
 		allowTime := true
 		if w.cfg.profile == "C44" && w.cfg.gateEditor && w.cfg.stretch != 0 && !w.signalled.Load() && !w.editsDone.Load() &&
-			!w.inCompile.Load() && !w.publishing.Load() && sim.Steps-w.lastInflightStep >= 30 && w.checkpointAt != w.mainVer*1000+w.impVer && w.saveInProgress.Load() == 0 {
+			!w.inCompile.Load() && !w.publishing.Load() && sim.Steps-w.lastInflightStep >= 30 && w.checkpointAt != w.stateKey() && w.saveInProgress.Load() == 0 {
 			// Mid-run checkpoint: the editor pauses, faults pause, 60 simulated seconds
 			// pass, and the same conditions as at the end of the run must hold. This makes
 			// every lost update visible, not only one that happens to be the last.
-			w.checkpointAt = w.mainVer*1000 + w.impVer
+			w.checkpointAt = w.stateKey()
 			w.midRun = true
 			sim.ClassWeight["editor"] = 0
 			w.settle()
@@ -930,7 +1103,7 @@ func runInBubble(hcfg harness.Config, idx int, tp *tape.Tape, dir string, res *h
 	for _, c := range w.clients {
 		last := "-"
 		if n := len(c.frames); n > 0 {
-			last = fmt.Sprintf("v%d/w%d", c.frames[n-1].Main, c.frames[n-1].Imp)
+			last = fmt.Sprintf("v%d/w%d/x%d/b%d", c.frames[n-1].Main, c.frames[n-1].Imp, c.frames[n-1].Imp2, c.frames[n-1].Board)
 		}
 		cs = append(cs, fmt.Sprintf("%s state=%s frames=%d last=%s stalls=%d end=%q", c.name, c.state, len(c.frames), last, c.stalls, c.endErr))
 	}
@@ -1054,10 +1227,16 @@ func (w *world) biasHandshakes() {
 	}
 }
 
+func (w *world) stateKey() int {
+	w.mu.Lock()
+	defer w.mu.Unlock()
+	return ((w.mainVer*100+w.impVer)*100+w.imp2Ver)*4 + w.navBoard
+}
+
 func (w *world) systemParkedAny() bool {
 	for _, k := range w.sim.ParkedKeys() {
 		switch {
-		case strings.HasPrefix(k, "browser:"), strings.HasPrefix(k, "editor:"), strings.HasPrefix(k, "operator:"), strings.HasPrefix(k, "kernel:"), strings.HasPrefix(k, "hs-"):
+		case strings.HasPrefix(k, "browser:"), strings.HasPrefix(k, "editor:"), strings.HasPrefix(k, "operator:"), strings.HasPrefix(k, "kernel:"), strings.HasPrefix(k, "hs-"), strings.HasPrefix(k, "nav:"):
 		default:
 			return true
 		}
@@ -1072,7 +1251,7 @@ func (w *world) systemParked() bool {
 			continue // deliberately stalled by the fault above
 		}
 		switch {
-		case strings.HasPrefix(k, "browser:"), strings.HasPrefix(k, "editor:"), strings.HasPrefix(k, "operator:"), strings.HasPrefix(k, "kernel:"), strings.HasPrefix(k, "hs-"):
+		case strings.HasPrefix(k, "browser:"), strings.HasPrefix(k, "editor:"), strings.HasPrefix(k, "operator:"), strings.HasPrefix(k, "kernel:"), strings.HasPrefix(k, "hs-"), strings.HasPrefix(k, "nav:"):
 		default:
 			return true
 		}
@@ -1105,13 +1284,14 @@ func (w *world) settle() {
 	sim := w.sim
 	w.settling.Store(true)
 	w.kernel.NoFaults = true
+	sim.ClassWeight["nav"] = 0 // no new navigation; a GET in flight completes
 	// let a half-finished save complete (and, at the end of the run, the remaining saves)
 	for i := 0; i < 400 && !w.editsDone.Load() && (w.saveInProgress.Load() != 0 || !w.midRun); i++ {
 		if !sim.Step(false, nil) {
 			sim.Advance(100 * time.Millisecond)
 		}
 	}
-	sim.Logf("settle: input stable at v%d/w%d, faults off", w.mainVer, w.impVer)
+	sim.Logf("settle: input stable at %v, faults off", w.want())
 	deadline := sim.Now() + 60*time.Second
 	for n := 0; n < 4000; n++ {
 		if sim.Step(false, nil) {
@@ -1127,12 +1307,9 @@ func (w *world) settle() {
 
 func (w *world) checkC44() {
 	res := w.res
-	wantMain, wantImp := w.mainVer, -1
-	if w.cfg.imports {
-		wantImp = w.impVer
-	}
+	want := w.want()
 	evs := w.sim.Events()
-	// O44.2a: the last compile used the latest content
+	// O44.2a: the last compile used the latest content (and the board navigated to last)
 	var lastCompile *verEv
 	for i := range evs {
 		if evs[i].Name == "compile.end" {
@@ -1146,16 +1323,17 @@ func (w *world) checkC44() {
 		res.Fail("C44", "O44.2", "no compile finished although the watcher ran for %v of simulated time", w.sim.Now())
 		return
 	}
-	if lastCompile.Main != wantMain || lastCompile.Imp != wantImp {
-		res.Fail("C44", "O44.2", "input stopped changing at v%04d/w%04d; 60 simulated seconds later the last compile had used v%04d/w%04d", wantMain, wantImp, lastCompile.Main, lastCompile.Imp)
+	if lastCompile.vers() != want {
+		res.Fail("C44", "O44.2", "input stopped changing at %v; 60 simulated seconds later the last compile had used %v", want, lastCompile.vers())
 		return
 	}
-	b, err := os.ReadFile(filepath.Join(w.dir, "out.svg"))
-	if err == nil {
-		m, i := versions(string(b))
-		if m != wantMain || i != wantImp {
-			res.Fail("C44", "O44.2", "output file holds v%04d/w%04d, latest content is v%04d/w%04d", m, i, wantMain, wantImp)
-			return
+	if !w.cfg.navigate {
+		b, err := os.ReadFile(filepath.Join(w.dir, "out.svg"))
+		if err == nil {
+			if v := versions(string(b)); v != want {
+				res.Fail("C44", "O44.2", "output file holds %v, latest content is %v", v, want)
+				return
+			}
 		}
 	}
 	// O44.2b + O44.1 per client
@@ -1163,21 +1341,32 @@ func (w *world) checkC44() {
 	defer w.mu.Unlock()
 	subject := 0
 	for _, c := range w.clients {
-		hiM, hiI := -1, -1
+		hi := [3]int{-1, -1, -1}
+		at := 0 // O44.1b: position in the sequence of stored results
 		for _, f := range c.frames {
-			if f.Main >= 0 {
-				if f.Main < hiM {
-					res.Fail("C44", "O44.1", "%s received v%04d after it had already received v%04d (frames: %s)", c.name, f.Main, hiM, frameList(c.frames))
+			for k, v := range [3]int{f.Main, f.Imp, f.Imp2} {
+				if v < 0 {
+					continue
+				}
+				if v < hi[k] {
+					res.Fail("C44", "O44.1", "%s received version %d of %s after it had already received version %d (frames: %s)", c.name, v, []string{"index.d2", "b.d2", "c.d2"}[k], hi[k], frameList(c.frames))
 					return
 				}
-				hiM = f.Main
+				hi[k] = v
 			}
-			if f.Imp >= 0 {
-				if f.Imp < hiI {
-					res.Fail("C44", "O44.1", "%s received w%04d after it had already received w%04d (frames: %s)", c.name, f.Imp, hiI, frameList(c.frames))
+			// Results reach a client in compile order: the frames are a subsequence (with
+			// repetitions) of the results the compile loop stored, in that order. The
+			// earliest possible match is taken, so a valid assignment is found if one exists.
+			if f.Hash != 0 {
+				j := at
+				for j < len(w.stored) && w.stored[j] != f.Hash {
+					j++
+				}
+				if j == len(w.stored) {
+					res.Fail("C44", "O44.1", "%s received a result (%s) that is not among the results compiled after the one it received before (position %d of %d stored results): results out of compile order, or a result that was never compiled (frames: %s)", c.name, vers{f.Main, f.Imp, f.Imp2, f.Board}, at, len(w.stored), frameList(c.frames))
 					return
 				}
-				hiI = f.Imp
+				at = j
 			}
 		}
 		if c.state != "open" {
@@ -1193,12 +1382,12 @@ func (w *world) checkC44() {
 		}
 		subject++
 		if len(c.frames) == 0 {
-			res.Fail("C44", "O44.2", "%s is connected but never received a result; latest content is v%04d/w%04d", c.name, wantMain, wantImp)
+			res.Fail("C44", "O44.2", "%s is connected but never received a result; latest content is %v", c.name, want)
 			return
 		}
 		last := c.frames[len(c.frames)-1]
-		if last.Main != wantMain || last.Imp != wantImp {
-			res.Fail("C44", "O44.2", "%s is connected and reading; input stopped changing at v%04d/w%04d, but 60 simulated seconds later the last result it received is v%04d/w%04d (err=%q; frames: %s)", c.name, wantMain, wantImp, last.Main, last.Imp, last.Err, frameList(c.frames))
+		if got := (vers{last.Main, last.Imp, last.Imp2, last.Board}); got != want {
+			res.Fail("C44", "O44.2", "%s is connected and reading; input stopped changing at %v, but 60 simulated seconds later the last result it received is %v (err=%q; frames: %s)", c.name, want, got, last.Err, frameList(c.frames))
 			return
 		}
 	}
@@ -1212,7 +1401,7 @@ func frameList(fs []frame) string {
 			sb.WriteString("err ")
 			continue
 		}
-		fmt.Fprintf(&sb, "v%d/w%d ", f.Main, f.Imp)
+		fmt.Fprintf(&sb, "v%d/w%d/x%d/b%d ", f.Main, f.Imp, f.Imp2, f.Board)
 	}
 	return sb.String()
 }
